@@ -37,6 +37,12 @@ func (c *Ctx) codecEngine() {
 				if callQName(cc) == "reflect.Value.Kind" {
 					return k, true
 				}
+				// reflect.Type.Bits() of a value of this kind: the size of the kind in bits
+				if cc.IsInvoke() && cc.Method.Name() == "Bits" && cc.Method.Pkg() != nil && cc.Method.Pkg().Path() == "reflect" {
+					if b, ok := map[reflect.Kind]int64{reflect.Int8: 8, reflect.Int16: 16, reflect.Int32: 32, reflect.Int64: 64, reflect.Uint8: 8, reflect.Uint16: 16, reflect.Uint32: 32, reflect.Uint64: 64}[reflect.Kind(k)]; ok {
+						return b, true
+					}
+				}
 				return 0, false
 			}}
 			res := pe.run(f, nil)
@@ -137,7 +143,16 @@ func (c *Ctx) codecEngine() {
 	}
 	// (c) sum-tag writer and reader use the parsed Len/Val of the same ParseTag
 	for _, pr := range [][2]string{{"encodeSumTag", bocPath + ".Cell.WriteUint"}, {"compareWithSumTag", bocPath + ".Cell.PickUint"}} {
-		f := c.mustFn(R, "tlb", pr[0])
+		f := c.fn("tlb", pr[0])
+		if f == nil && pr[0] == "encodeSumTag" {
+			// inlined into its callers: the sum-type encoder is then the function that parses the tag and writes it
+			if g := c.fn("tlb", "encodeSumType"); g != nil && len(callsTo(g, tlbPath+".ParseTag")) == 1 {
+				f = g
+			}
+		}
+		if f == nil {
+			f = c.mustFn(R, "tlb", pr[0])
+		}
 		if f == nil {
 			continue
 		}
@@ -204,7 +219,14 @@ func (c *Ctx) externalEnvelope() {
 // encoder therefore replaces the target cell with the value (or copies type and mask as well), and
 // the decoder hands out the whole cell.
 func (c *Ctx) wholeCellValues(R string) {
-	if f := c.mustFn(R, "tlb", "encodeCell"); f != nil {
+	encCell := c.fn("tlb", "encodeCell")
+	if encCell == nil {
+		encCell = c.fn("tlb", "encode") // the small per-type helper inlined into the encoder's struct case
+	}
+	if encCell == nil {
+		encCell = c.mustFn(R, "tlb", "encodeCell")
+	}
+	if f := encCell; f != nil {
 		whole := false
 		typ, mask := false, false
 		allInstrs(f, func(_ *ssa.BasicBlock, in ssa.Instruction) {
@@ -212,8 +234,21 @@ func (c *Ctx) wholeCellValues(R string) {
 			if !ok {
 				return
 			}
-			if st.Addr == ssa.Value(f.Params[0]) && strings.HasSuffix(st.Val.Type().String(), "boc.Cell") {
-				whole = true
+			// *c = value: a whole boc.Cell stored through the target pointer (the parameter, or the child cell the
+			// encoder moved to for a ^ field)
+			if strings.HasSuffix(st.Val.Type().String(), "boc.Cell") && strings.HasSuffix(st.Addr.Type().String(), "*"+bocPath+".Cell") {
+				_, isFA := st.Addr.(*ssa.FieldAddr)
+				_, isLocal := st.Addr.(*ssa.Alloc)
+				target := derivesFrom(st.Addr, func(v ssa.Value) bool {
+					if v == ssa.Value(f.Params[0]) {
+						return true
+					}
+					cl := callOf(v)
+					return cl != nil && callQName(&cl.Call) == bocPath+".Cell.NewRef"
+				}, false)
+				if !isFA && !isLocal && target {
+					whole = true
+				}
 			}
 			if of, ok := ownerField(st.Addr); ok {
 				if of == "boc.Cell.cellType" {
